@@ -1213,13 +1213,17 @@ def i_real(it, args, kw):
         it.no_subst = saved
 
 
+def i_run_coro(it, args, kw):
+    return it.await_value(args[0])
+
+
 def i_new_object(it, args, kw):
     return SObj(args[0], dict(kw))
 
 
 INTRINSICS = {
     "new_object": i_new_object, "sym_text": i_sym_text, "sym_idset": i_sym_idset,
-    "real": i_real, "set_global": i_set_global, "get_global": i_get_global, "id_mapping": (lambda it, args, kw: args[0]),
+    "real": i_real, "run_coro": i_run_coro, "set_global": i_set_global, "get_global": i_get_global, "id_mapping": (lambda it, args, kw: args[0]),
     "ghost": (lambda it, args, kw: it.ex.ghosts.setdefault(args[0], [])),
     "is_concrete": (lambda it, args, kw: not is_symbolic(args[0])),
     "sym_int": i_sym_int, "sym_bool": i_sym_bool, "sym_str": i_sym_str, "sym_float": i_sym_float,
